@@ -73,6 +73,7 @@ type Exec struct {
 	SafetyOnly bool
 	curPos string
 	smokeCount map[string]int
+	DropInv map[int]bool      // contract lines of loop invariant clauses left out (they name a local that no longer exists and the function verifies without them, rebind.go)
 	Alias   map[string]string // identifiers of loop invariants bound to renamed locals (rebind.go)
 	Inlined map[string]bool
 	epochSeq int
